@@ -117,10 +117,16 @@ def check_laws(name, res, viol, stats):
                              f'{name}: next_time_on_grid({q}, {p}) = {gg} '
                              f'is not congruent to {p} mod {q} counted from '
                              f'{bbb}')
-                lim = q - tol if not amb else q + tol
+                import math
                 if x == round(x):
-                    lim = tol            # exactly on the grid: stay there
-                if gg - b > lim + (tol if x == round(x) else 0):
+                    late = gg - b > 2 * tol       # on the grid: stay there
+                elif amb:
+                    late = gg - b > q + tol       # a hair off the grid
+                else:
+                    # the grid point right above the reference beat (which
+                    # may be a hair less than a whole quant away)
+                    late = gg > bbb + pm + math.ceil(x) * q + tol
+                if late:
                     viol.add('C12-3', f'{name}-grid-not-earliest',
                              f'{name}: next_time_on_grid({q}, {p}) = {gg} at '
                              f'beat {b}: {gg - q} would do (base {bbb})')
